@@ -14,6 +14,21 @@ CLAIMED = {
    note="Trusted: reference store model, mapping of LogicError variants to error kinds, the (sim host) procedures. Which of several independent errors wins is never exercised (one fault per transaction)."),
 }
 
+CLAIMED.update({
+ "C12": dict(engine="import-sim", category="exploration", ref="DESIGN.md 4.3",
+   technique="deterministic simulation over the hash-order seam: each seeded import declaration is executed under several controlled HashMap key seeds and compared with a set-algebra model and with itself across seeds",
+   text="Seeded import declarations (1-3 import sets, only/except/prefix/rename nested to depth 2 quick / 3 thorough, admissible by construction incl. swaps and chains) over a library delivered natively, as registered text or as a file; each run on a fresh interpreter under 4 (quick) / 16 (thorough) hash-key seeds supplied through an interposed getrandom. Two verdicts: bindings equal the algebra under every seed; all seeds agree. The second verdict and exact replay are what simulation adds; the term space itself is sampled, not enumerated.",
+   note="Trusted: the set algebra (engine_c::algebra + refint import sets), getrandom interposition as the only source of HashMap order. Inadmissible declarations are not generated."),
+ "C13": dict(engine="library-world", category="exploration", ref="DESIGN.md 4.4",
+   technique="deterministic simulation: seeded library worlds (files + registered sources + decoy working directory) and histories of imports, driver probes and program forms, checked against a reference module system",
+   text="Seeded worlds of 1-4 healthy libraries in a DAG with private state, private helpers, exports with and without rename; histories interleave import declarations (direct/prefix/only/rename) with driver-level calls of exported procedures and then program forms that redefine colliding names and call exported procedures. Every step is compared with a reference module system (one instance per library per interpreter); decoy libraries in the working directory must never be observed.",
+   note="Trusted: reference module system in sim/src/refint.rs; libraries export procedures only. Fault-free configuration; faults are C14's."),
+ "C14": dict(engine="library-world", category="fault_enumeration", ref="DESIGN.md 4.5",
+   technique="deterministic simulation with fault injection: library health faults (missing, wrong name, faulting body, broken syntax, invalid UTF-8, directory, empty, truncated, dangling symlink), cycles and heal/break events injected into seeded import histories; oracle = graph analysis + fresh-interpreter run",
+   text="Seeded arbitrary import graphs with per-node health faults placed on reachable nodes, histories of 1-4 import attempts on one interpreter with heal/break events between them, decoy libraries in the working directory, program directory absolute or relative. Each attempt's outcome class must be one of the causes reachable in the graph as it is (Ok if none), must not panic, and is compared with the same import on a fresh real interpreter (history independence). Unbounded loader recursion is caught by a nesting limit in the verification hook, process death is caught through the worker journal.",
+   note="Trusted: reachability/cycle analysis in engine_b::analyse; byte damage is placed inside the define-library form. Which of several reachable causes is reported is left open; after heal/break events outcomes for any mixture of library versions are accepted."),
+})
+
 NOT_APPLICABLE = {
  "C01": "pure function of the program text: no schedule, interleaving, clock, stream or fault for a simulator to own (DESIGN.md 8)",
  "C02": "stack and heap use of one deterministic run as a function of (program, N): resource monitoring of a single execution, nothing scheduled, no fault whose timing matters (DESIGN.md 8)",
@@ -27,7 +42,7 @@ NOT_APPLICABLE = {
  "C16": "pure function of the value (DESIGN.md 8)",
 }
 
-PENDING = {k: "check under construction in this session (claimed by DESIGN.md; will move to checks when its engine is built)" for k in ["C07","C12","C13","C14","C17","C18","C19"]}
+PENDING = {k: "check under construction in this session (claimed by DESIGN.md; will move to checks when its engine is built)" for k in ["C07","C17","C18","C19"]}
 
 def main():
     pending = dict(PENDING)
@@ -77,5 +92,5 @@ def main():
     except ImportError:
         print("jsonschema not available; written without validation")
 
-HOOK_COMMITS = ["c4e6571"]
+HOOK_COMMITS = ["c4e6571", "6156fa9"]
 if __name__ == "__main__": main()
